@@ -544,7 +544,7 @@ func genC17(o *vcoq.Out, r *vcoq.Rand, tier string) error {
 	o.CaseType = "c17case"
 	o.Judge = "judge"
 	o.Shard = 500
-	o.Rule = "exhaustive: member counts 0-4 x every success/failure assignment x every completion order x Execute with strategies 0-7 (Unspecified, All, Most, Any, One, Fast, Race, out-of-range) with members that ignore their context, and the same space with cancellation-aware members for the parallel strategies; plus ExecuteOne/Fast/Race called directly and ExecuteUpTo with budgets -1..n+1 over the same space subsampled. random: 5-8 members (thorough: more of them), outcomes success / failure / failure carrying a message, random awareness, random order, random API. Members are gated by channels released one per step; the driver waits for quiescence (stop-the-world stack dump) between steps. Non-trivial: at least 2 members and at least one failure or a parallel early-return strategy. Distinct by the full (api, members, order) input."
+	o.Rule = "exhaustive: member counts 0-4 x every success/failure assignment x every completion order x Execute with strategies 0-7 (Unspecified, All, Most, Any, One, Fast, Race, out-of-range) with members that ignore their context, and the same space with cancellation-aware members for the parallel strategies; plus ExecuteOne/Fast/Race called directly and ExecuteUpTo with budgets -1..n+1 over the same space subsampled. n = 5 with context-ignoring members, all outcome assignments x all orders, one strategy drawn per case (thorough: strategies 1-6 each). random: 5-8 members (thorough: more of them), outcomes success / failure / failure carrying a message, random awareness, random order, random API. Members are gated by channels released one per step; the driver waits for quiescence (stop-the-world stack dump) between steps. Non-trivial: at least 2 members and at least one failure or a parallel early-return strategy. Distinct by the full (api, members, order) input."
 	var specs []Spec
 	add := func(a apiSel, outs []int, aware []bool, order []int) {
 		specs = append(specs, Spec{API: a.api, Arg: a.arg, Outs: append([]int(nil), outs...),
@@ -589,10 +589,13 @@ func genC17(o *vcoq.Out, r *vcoq.Rand, tier string) error {
 			}
 		}
 	}
-	nrand := 600
+	nrand := 1500
 	if tier == "thorough" {
-		nrand = 12000
-		// n = 5 exhaustively for the seven strategies, context-ignoring members
+		nrand = 20000
+	}
+	{
+		// n = 5, every outcome assignment x every order, context-ignoring members:
+		// one strategy drawn per case (quick), every strategy 1..6 (thorough)
 		perms := permutations(5)
 		for mask := 0; mask < 1<<5; mask++ {
 			outs := make([]int, 5)
@@ -602,7 +605,13 @@ func genC17(o *vcoq.Out, r *vcoq.Rand, tier string) error {
 				}
 			}
 			for _, p := range perms {
-				add(apiSel{"execute", 1 + r.Intn(6)}, outs, make([]bool, 5), p)
+				if tier == "thorough" {
+					for st := 1; st <= 6; st++ {
+						add(apiSel{"execute", st}, outs, make([]bool, 5), p)
+					}
+				} else {
+					add(apiSel{"execute", 1 + r.Intn(6)}, outs, make([]bool, 5), p)
+				}
 			}
 		}
 	}
